@@ -11,31 +11,47 @@ open MaddyVerif.StatusKeys
 theorem keys_cons (d : Nat) (c : Conn) (rest : Conns) : keys ((d, c) :: rest) = c.rcpts ++ keys rest := by
   simp [keys]
 
+/-- `C.Rcpt` appends the address as given exactly when it reports success — dead connection,
+local refusal, refusal by the server or a connection fault under the command all leave the list
+as it was. -/
+theorem rcpt_spec (c : Conn) (utf8 : Bool) (r : Rcpt) :
+    (c.rcpt utf8 r).1.rcpts = (if (c.rcpt utf8 r).2 = true then c.rcpts ++ [r.id] else c.rcpts) := by
+  unfold Conn.rcpt
+  by_cases h1 : (c.dead || !sendable utf8 r) = true
+  · simp [h1]
+  · by_cases h2 : r.fault = true
+    · simp [h1, h2]
+    · by_cases h3 : r.accept = true
+      · simp [h1, h2, h3]
+      · simp [h1, h2, h3]
+
+theorem count_snoc_ite (l : List Nat) (b : Bool) (y x : Nat) :
+    (if b = true then l ++ [y] else l).count x = l.count x + (if b = true ∧ x = y then 1 else 0) := by
+  by_cases hb : b = true
+  · by_cases hx : y = x
+    · simp [hb, hx, List.count_append]
+    · have hx' : ¬ x = y := fun h => hx h.symm
+      simp [hb, hx', List.count_append, hx]
+  · simp [hb]
+
 /-- One `AddRcpt` adds exactly the given address to the status keys when it succeeds, nothing
-otherwise — whatever connection the pool hands out. -/
+otherwise — whatever connection the pool hands out, alive or not. -/
 theorem addTo_keys (utf8 : Bool) (r : Rcpt) (conns : Conns) (pool : Pool) (x : Nat) :
     (keys (addTo utf8 r conns pool).1).count x =
       (keys conns).count x + (if (addTo utf8 r conns pool).2.2 = true ∧ x = r.id then 1 else 0) := by
   induction conns generalizing pool with
   | nil =>
-    simp only [addTo, Conn.mail, Conn.rcpt]
-    by_cases h : (sendable utf8 r && r.accept) = true
-    · simp [h, keys, List.count_cons]
-      by_cases hx : r.id = x
-      · simp [hx]
-      · simp [hx]; intro h'; exact hx h'.symm
-    · simp [h, keys]
+    simp only [addTo, keys, List.flatMap_cons, List.flatMap_nil, List.append_nil]
+    rw [rcpt_spec, count_snoc_ite]
+    simp [Conn.mail]
+    try rfl
   | cons e rest ih =>
     obtain ⟨d, c⟩ := e
     simp only [addTo]
     by_cases hd : (d == r.dom) = true
-    · simp only [hd, ↓reduceIte, Conn.rcpt]
-      by_cases h : (sendable utf8 r && r.accept) = true
-      · simp [h, keys_cons, List.count_append, List.count_cons]
-        by_cases hx : r.id = x
-        · simp [hx]; omega
-        · simp [hx]; intro h'; exact absurd h'.symm hx
-      · simp [h, keys_cons]
+    · simp only [hd, ↓reduceIte, keys_cons, List.count_append]
+      rw [rcpt_spec, count_snoc_ite]
+      omega
     · simp only [hd, Bool.false_eq_true, ↓reduceIte]
       have h := ih pool
       simp only [keys_cons, List.count_append]
@@ -105,6 +121,88 @@ theorem C09_status_keys_eq_accepted (utf8 : Bool) (pool : Pool) (tx : Tx) (x : N
     simp [hemp]
   · rw [bodyStatuses_keys, hk, hr]
 
+/-! ### ground truth at the next hop -/
+
+/-- Client-side record and server-side record of a connection agree. -/
+def Synced (conns : Conns) : Prop := ∀ e ∈ conns, e.2.rcpts = e.2.wire
+
+theorem rcpt_synced (c : Conn) (utf8 : Bool) (r : Rcpt) (h : c.rcpts = c.wire) :
+    (c.rcpt utf8 r).1.rcpts = (c.rcpt utf8 r).1.wire := by
+  unfold Conn.rcpt
+  by_cases h1 : (c.dead || !sendable utf8 r) = true
+  · simp [h1, h]
+  · by_cases h2 : r.fault = true
+    · simp [h1, h2, h]
+    · by_cases h3 : r.accept = true
+      · simp [h1, h2, h3, h]
+      · simp [h1, h2, h3, h]
+
+theorem addTo_synced (utf8 : Bool) (r : Rcpt) (conns : Conns) (pool : Pool) (h : Synced conns) :
+    Synced (addTo utf8 r conns pool).1 := by
+  induction conns generalizing pool with
+  | nil =>
+    intro e he
+    simp only [addTo, List.mem_singleton] at he
+    subst he
+    exact rcpt_synced _ utf8 r (by simp [Conn.mail])
+  | cons e rest ih =>
+    obtain ⟨d, c⟩ := e
+    have hc : c.rcpts = c.wire := h (d, c) (by simp)
+    have hrest : Synced rest := fun e he => h e (by simp [he])
+    simp only [addTo]
+    by_cases hd : (d == r.dom) = true
+    · simp only [hd, ↓reduceIte]
+      intro e he
+      simp only [List.mem_cons] at he
+      rcases he with rfl | he
+      · exact rcpt_synced c utf8 r hc
+      · exact hrest e he
+    · simp only [hd, Bool.false_eq_true, ↓reduceIte]
+      intro e he
+      simp only [List.mem_cons] at he
+      rcases he with rfl | he
+      · exact hc
+      · exact ih pool hrest e he
+
+theorem addAll_synced (utf8 : Bool) (rs : List Rcpt) :
+    ∀ (conns : Conns) (pool : Pool) (recips : List Nat), Synced conns →
+      Synced (addAll utf8 (conns, pool, recips) rs).1.1 := by
+  induction rs with
+  | nil => intro conns pool recips h; simpa [addAll] using h
+  | cons r rest ih =>
+    intro conns pool recips h
+    simp only [addAll]
+    exact ih _ _ _ (addTo_synced utf8 r conns pool h)
+
+theorem ok_status_delivered (conns : Conns) (f : Nat → Bool) (h : Synced conns) (id : Nat)
+    (hm : (id, true) ∈ bodyStatuses conns f) : id ∈ delivered conns f := by
+  simp only [bodyStatuses, List.mem_flatMap, List.mem_map, Prod.mk.injEq] at hm
+  obtain ⟨e, he, y, hy, hyid, hok⟩ := hm
+  simp only [delivered, List.mem_flatMap]
+  refine ⟨e, he, ?_⟩
+  rw [hok, ← h e he, ← hyid]
+  simpa using hy
+
+/-- **C09 (remote target, ground truth).** A recipient that is NOT reported as failed was really
+handed to the next hop in a transaction whose end-of-data the next hop answered 250 — whatever
+connections broke at whatever RCPT command (recipients accepted on a connection before it broke
+are reported, and reported as failed). -/
+theorem C09_ok_status_was_delivered (utf8 : Bool) (pool : Pool) (tx : Tx) (id : Nat) :
+    let o := (runTx utf8 pool tx).2
+    (id, true) ∈ o.statuses → id ∈ o.delivered := by
+  simp only [runTx]
+  have hs := addAll_synced utf8 tx.rcpts [] pool [] (by intro e he; simp at he)
+  split
+  · intro h; simp at h
+  · intro h; exact ok_status_delivered _ _ hs id h
+
+/-- A status for a recipient of a connection that broke is a failure. -/
+theorem C09_dead_connection_statuses_fail (conns : Conns) (f : Nat → Bool) (d : Nat) (c : Conn)
+    (hmem : (d, c) ∈ conns) (hdead : c.dead = true) (id : Nat) (hid : id ∈ c.rcpts) :
+    (id, false) ∈ bodyStatuses conns f := by
+  simp only [bodyStatuses, List.mem_flatMap, List.mem_map, Prod.mk.injEq]
+  exact ⟨(d, c), hmem, id, hid, rfl, by simp [hdead]⟩
+
 /-- The same for every transaction of a history sharing one pool. -/
 theorem C09_history (utf8 : Bool) :
     ∀ (txs : List Tx) (pool : Pool), ∀ o ∈ runHistory utf8 pool txs, ∀ x,
@@ -159,6 +257,37 @@ theorem C09_pipeline_unrewritten_unchanged (orig : List (Nat × Nat)) (eff : Nat
     rw [List.find?_eq_none]; intro e he; simpa using h e he
   simp [this]
 
+/-- **C09 (pipeline, overlapping rewrites).** When no two client-supplied recipients are rewritten
+to the same effective address (the keys of `OriginalRcpts` are distinct), EVERY effective recipient's
+result is reported under exactly the client-supplied recipient it was produced from — also when
+that client-supplied address is itself the rewrite result of another recipient (a→b, b→c with the
+client sending a and b: the result for c belongs to b, the chain is not followed up to a). -/
+theorem C09_pipeline_each_effective_to_its_own_client (orig : List (Nat × Nat))
+    (hnd : (orig.map (fun e => e.1)).Nodup) :
+    ∀ e ∈ orig, translate orig e.1 = e.2 := by
+  induction orig with
+  | nil => intro e he; simp at he
+  | cons o rest ih =>
+    intro e he
+    simp only [List.map_cons, List.nodup_cons] at hnd
+    simp only [List.mem_cons] at he
+    rcases he with rfl | he
+    · simp [translate]
+    · have hne : o.1 ≠ e.1 := by
+        intro h
+        exact hnd.1 (List.mem_map.mpr ⟨e, he, h.symm⟩)
+      have := ih hnd.2 e he
+      unfold translate at this ⊢
+      simp only [List.find?_cons]
+      have hb : (o.1 == e.1) = false := by simpa using hne
+      simp only [hb]
+      exact this
+
+/-- a→b, b→c, client sends a (=1) and b (=2), c = 13: the result for 2 (what a became) is filed under
+1 and the result for 13 under 2 — one result each. -/
+example : let orig : List (Nat × Nat) := [(13, 2), (2, 1)]
+    translate orig 2 = 1 ∧ translate orig 13 = 2 := by decide
+
 /-- Known finding (not repaired — `OriginalRcpts` is a plain map, so the repair is not small): when
 two client-supplied recipients (1 and 2) are rewritten to the same effective address (77), the
 map keeps only the later one, both results are filed under recipient 2 and recipient 1 gets none. -/
@@ -167,9 +296,17 @@ theorem C09_alias_collision_counterexample :
     translate orig 77 = 2 ∧ translate orig 77 ≠ 1 := by decide
 
 /-! ## non-vacuity -/
-def demoTx : Tx := { rcpts := [⟨1, 0, false, false, true⟩, ⟨2, 0, true, true, true⟩, ⟨3, 1, true, false, true⟩, ⟨4, 1, false, false, false⟩],
+def demoTx : Tx := { rcpts := [⟨1, 0, false, false, true, false⟩, ⟨2, 0, true, true, true, false⟩, ⟨3, 1, true, false, true, false⟩, ⟨4, 1, false, false, false, false⟩],
                      dataFail := fun d => d == 1 }
 example : ((runTx false [(0, { rcpts := [9, 9], errored := false })] demoTx).2.statuses) = [(1, true), (2, true)] := by decide
 example : lmtpStatuses [5, 6, 7] [true] = [(5, true), (6, false), (7, false)] := by decide
+/-- a connection breaks under the third RCPT of domain 0: the two recipients accepted before get a
+(failed) status each, the later one of that domain is refused, the other domain is untouched. -/
+def faultTx : Tx := { rcpts := [⟨1, 0, false, false, true, false⟩, ⟨2, 0, false, false, true, false⟩, ⟨3, 0, false, false, true, true⟩,
+                                ⟨4, 0, false, false, true, false⟩, ⟨5, 1, false, false, true, false⟩],
+                      dataFail := fun _ => false }
+example : (runTx false [] faultTx).2.adds = [(1, true), (2, true), (3, false), (4, false), (5, true)] := by decide
+example : (runTx false [] faultTx).2.statuses = [(1, false), (2, false), (5, true)] := by decide
+example : (runTx false [] faultTx).2.delivered = [5] := by decide
 
 end MaddyVerif.C09
